@@ -102,7 +102,7 @@ Definition audio_unit_take (a : asc) (u : tsunit) (auds : list cframe) : option 
   | None => None
   end.
 
-Definition video_unit_ok (sps pps : bytes) (a : asc) (c : cframe) (u : tsunit) : bool :=
+Definition hls_video_unit_ok (sps pps : bytes) (a : asc) (c : cframe) (u : tsunit) : bool :=
   c_video c && src_unit_ok sps pps a c u.
 
 Fixpoint hls_walk (sps pps : bytes) (a : asc) (us : list tsunit) (vids auds : list cframe) : bool :=
@@ -111,7 +111,7 @@ Fixpoint hls_walk (sps pps : bytes) (a : asc) (us : list tsunit) (vids auds : li
   | u :: us' =>
       if u_pid u =? TS_VIDEO_PID then
         match vids with
-        | c :: vids' => video_unit_ok sps pps a c u && hls_walk sps pps a us' vids' auds
+        | c :: vids' => hls_video_unit_ok sps pps a c u && hls_walk sps pps a us' vids' auds
         | [] => false
         end
       else if u_pid u =? TS_AUDIO_PID then
